@@ -3,6 +3,7 @@ package checks
 import (
 	"fmt"
 	"net/http"
+	"os"
 	"sort"
 	"strings"
 
@@ -91,13 +92,13 @@ func seqObserve(sys *seqSystem, q harness.Req) string {
 	}
 	var calls []string
 	for _, c := range sys.calls() {
-		calls = append(calls, c.String())
+		calls = append(calls, c.String()+" "+js(c.Arg))
 	}
 	return fmt.Sprintf("status=%d panic=%q headers=%v calls=%v body=%s", resp.Status, resp.Panic, hs, calls, canonBody(resp.Body))
 }
 
 // SeqHistories runs part D and records into the run.
-func SeqHistories(r *engine.Run, quick bool) {
+func SeqHistories(r *engine.Run, quick bool, reverse func() (map[string]string, error)) {
 	seeds := c13Seeds()
 	byKind := map[string][]c13Seed{}
 	for _, s := range seeds {
@@ -121,12 +122,37 @@ func SeqHistories(r *engine.Run, quick bool) {
 			}
 		}
 	}
-	solo := map[string]string{}
-	for _, k := range kinds {
-		for j, s := range byKind[k] {
-			solo[fmt.Sprintf("%s/%d", k, j)] = seqObserve(newSeqSystem(k), s.Req)
-		}
+	// Reference observations on brand-new handlers, taken twice: in forward seed order in THIS process
+	// (before anything else is served) and in reverse order in a FRESH process (reverse callback).
+	// State a request leaves behind in the process (package-level variables) persists across "fresh"
+	// handlers; with the two orders in two processes every seed is observed once without and once
+	// with every other seed having been served before it.
+	solo := SeqSoloObservations(false)
+	sh := r.Shard()
+	for range solo {
+		sh.Transition()
 	}
+	if reverse != nil {
+		rev, err := reverse()
+		if err != nil {
+			fmt.Fprintf(os.Stderr, "C18: reverse-order reference pass failed: %v\n", err)
+			os.Exit(2)
+		}
+		for key, want := range solo {
+			sh.Transition()
+			sh.Clause("process history: a brand-new handler answers a request the same whatever the process served before")
+			if again, ok := rev[key]; !ok || again != want {
+				kind := strings.SplitN(key, "/", 2)[0]
+				var j int
+				fmt.Sscanf(strings.SplitN(key, "/", 2)[1], "%d", &j)
+				req := byKind[kind][j].Req
+				sh.Violate(engine.Violation{Sig: fmt.Sprintf("C18/process-state/%s/%s", kind, req.Method), Clause: "process-state", Index: int64(1)<<57 + int64(j), Kind: "C18-seq",
+					Case: map[string]interface{}{"handler": kind, "first": req, "second": req}, Expected: "forward order: " + firstDiff(want, again), Observed: "reverse order in a fresh process: " + firstDiff(again, want)})
+			}
+		}
+		r.Extra["process_state_reference_passes"] = "forward (in process) vs reverse (fresh process)"
+	}
+	r.Merge(sh)
 	r.Extra["sequential_history_pairs"] = len(pairs)
 	r.Parallel(len(pairs), func(n int, s *engine.Shard) {
 		p := pairs[n]
@@ -148,6 +174,35 @@ func SeqHistories(r *engine.Run, quick bool) {
 			s.Sample(map[string]interface{}{"part": "sequential history", "handler": p.kind, "first": first.Req.String(), "second": second.Req.String()})
 		}
 	})
+}
+
+// SeqSoloObservations serves every seed request on a brand-new handler, in forward or reverse order.
+func SeqSoloObservations(reverseOrder bool) map[string]string {
+	byKind := map[string][]c13Seed{}
+	for _, s := range c13Seeds() {
+		byKind[s.Handler] = append(byKind[s.Handler], s)
+	}
+	kinds := []string{"webdav", "caldav", "carddav", "principal"}
+	type kj struct {
+		k string
+		j int
+	}
+	var order []kj
+	for _, k := range kinds {
+		for j := range byKind[k] {
+			order = append(order, kj{k, j})
+		}
+	}
+	if reverseOrder {
+		for a, b := 0, len(order)-1; a < b; a, b = a+1, b-1 {
+			order[a], order[b] = order[b], order[a]
+		}
+	}
+	out := map[string]string{}
+	for _, o := range order {
+		out[fmt.Sprintf("%s/%d", o.k, o.j)] = seqObserve(newSeqSystem(o.k), byKind[o.k][o.j].Req)
+	}
+	return out
 }
 
 // ReplaySeq re-executes one sequential-history case.
